@@ -273,9 +273,6 @@ func (t *terminal) SendMouseRaw(btn MouseBtn, press bool, mods MouseFlag, x, y i
 
 		mouseCmd := []byte("\033[M" + string(32+btnByte) + string(byte(32+x)) + string(byte(32+y)))
 		_, err := t.Write(mouseCmd)
-		if err != nil {
-			panic(fmt.Sprintf("error %v", err))
-		}
 		return err
 
 	case MEUTF8:
